@@ -7,7 +7,7 @@ for f in sorted(glob.glob(os.path.join(VERIF, "seeded", "*", "meta.json"))):
     m = json.load(open(f))
     first = ""
     for c in m.get("caught_by", []):
-        fs = m["checks"][c]["first"]
+        fs = m.get("checks", {}).get(c, {}).get("first")
         if fs:
             first = fs[0].split(":")[0].replace("|", "/")[:70]
             break
